@@ -82,9 +82,10 @@ def _ds_imports():
     return pandas, data_algebra, TableDescription
 
 
-def ds_pipe(p, TableDescription):
+def ds_pipe(p, space):
+    """pipelines are built from the space's own table descriptions (describe), as a user would"""
     def td(k):
-        return TableDescription(table_name=k, column_names=["x"])
+        return space.describe(k)
     if p[0] == "copy":
         return td(p[1])
     if p[0] == "inc":
@@ -94,12 +95,18 @@ def ds_pipe(p, TableDescription):
     raise ValueError(p)
 
 
+def _ds_tab(d):
+    return {"cells": sorted(float(v) for v in d["x"].tolist()), "wide": "y" in list(d.columns)}
+
+
 def ds_observe(space):
     keys = sorted(space.keys())
     tables = {}
     for k in keys:
-        d = space.retrieve(k)
-        tables[k] = sorted(float(v) for v in d["x"].tolist())
+        t = _ds_tab(space.retrieve(k))
+        # the description of an entry must describe the entry
+        t["described_wide"] = "y" in list(space.describe(k).column_names)
+        tables[k] = t
     return {"keys": keys, "tables": tables}
 
 
@@ -109,27 +116,33 @@ def ds_apply(space, call, pandas, TableDescription):
     try:
         if op == "insert":
             k = None if call[1] == "NONE" else call[1]
-            df = pandas.DataFrame({"x": [float(v) for v in call[2]]})
+            cols = {"x": [float(v) for v in call[2]["cells"]]}
+            if call[2]["wide"]:
+                cols["y"] = [0.0] * len(cols["x"])
+            df = pandas.DataFrame(cols)
             r = space.insert(key=k, value=df, allow_overwrite=call[3])
             return True, r.table_name
         if op == "execute":
             k = None if call[2] == "NONE" else call[2]
-            r = space.execute(ds_pipe(call[1], TableDescription), key=k, allow_overwrite=call[3])
+            r = space.execute(ds_pipe(call[1], space), key=k, allow_overwrite=call[3])
             return True, r.table_name
         if op == "remove":
             space.remove(call[1])
             return True, None
         if op == "retrieve":
-            d = space.retrieve(call[1])
-            return True, sorted(float(v) for v in d["x"].tolist())
+            return True, _ds_tab(space.retrieve(call[1]))
     except Exception as ex:  # noqa: BLE001
         return False, "%s: %s" % (type(ex).__name__, str(ex)[:120])
     raise ValueError(op)
 
 
+def _ds_exp_tab(t):
+    return {"cells": sorted(float(v) for v in t["cells"]), "wide": bool(t["wide"]), "described_wide": bool(t["wide"])}
+
+
 def ds_expected_obs(obs):
     tables = obs["tables"] if isinstance(obs["tables"], dict) else {}
-    return {"keys": sorted(obs["keys"]), "tables": {k: sorted(float(v) for v in tables[k]) for k in sorted(tables)}}
+    return {"keys": sorted(obs["keys"]), "tables": {k: _ds_exp_tab(tables[k]) for k in sorted(tables)}}
 
 
 def ds_replay_case(args):
@@ -155,7 +168,8 @@ def ds_replay_case(args):
                 # only up to "is a key that was free before" - compare with the spec's observation instead
                 good = ret in obs["keys"]
             if good and ev["call"][0] == "retrieve" and ok:
-                good = ret == sorted(float(v) for v in ev["ret"])
+                e_ = _ds_exp_tab(ev["ret"])
+                good = ret == {"cells": e_["cells"], "wide": e_["wide"]}
             if not good:
                 verdict = ("diverge", i, {"call": ev["call"], "got_ok": ok, "got_ret": ret, "got_obs": obs,
                                           "exp_ok": ev["ok"], "exp_obs": exp})
@@ -188,8 +202,8 @@ def ds_is_drop_before_eval(case, v):
 
 
 DS_ASSUME = [
-    "table values are abstracted to the multiset of cells of one numeric column; pipelines executed in a space are copy, "
-    "x+1 and concat_rows over stored tables",
+    "table values are abstracted to the multiset of cells of column x plus whether a second column y exists (two schemas); "
+    "pipelines executed in a space are built from describe(k): copy, x+1 and concat_rows over stored tables",
     "DBSpace runs on an in-memory SQLite database",
     "the name of an automatic key is not fixed by the property: the replay only requires that a fresh key appears",
 ]
@@ -296,6 +310,22 @@ def os_apply(obj, call, mod):
             obj -= OrderedSet(call[1])
         elif op == "ixor":
             obj ^= OrderedSet(call[1])
+        elif op == "difference_update":
+            obj.difference_update(OrderedSet(call[1]))
+        elif op == "intersection_update":
+            obj.intersection_update(OrderedSet(call[1]))
+        elif op == "symmetric_difference_update":
+            obj.symmetric_difference_update(OrderedSet(call[1]))
+        elif op == "difference":
+            ev["rset"] = list(obj.difference(OrderedSet(call[1])))
+        elif op == "intersection":
+            ev["rset"] = list(obj.intersection(OrderedSet(call[1])))
+        elif op == "symmetric_difference":
+            ev["rset"] = list(obj.symmetric_difference(OrderedSet(call[1])))
+        elif op == "issubset":
+            ev["ret"] = bool(obj.issubset(OrderedSet(call[1])))
+        elif op == "issuperset":
+            ev["ret"] = bool(obj.issuperset(OrderedSet(call[1])))
         elif op == "union":
             ev["rset"] = list(obj.union(list(call[1])))
         elif op == "or":
@@ -342,7 +372,7 @@ def os_replay_case(case):
                 return ("pop-choice", i)       # a different (legal) element: the rest of this history is another behaviour
         else:
             good = good and ev["after"] == e["after"]
-            if e["call"][0] in ("contains", "len"):
+            if e["call"][0] in ("contains", "len", "issubset", "issuperset"):
                 good = good and ev["ret"] == e["ret"]
             if e["rset"] != "NONE":
                 if e["rord"]:
@@ -356,7 +386,8 @@ def os_replay_case(case):
 
 OS_OPS1 = ["add", "discard", "remove", "contains"]
 OS_OPS0 = ["pop", "clear", "copy", "len"]
-OS_OPSA = ["update", "ior", "iand", "isub", "ixor", "union", "or", "and", "sub", "xor"]
+OS_OPSA = ["update", "ior", "iand", "isub", "ixor", "union", "or", "and", "sub", "xor", "difference_update", "intersection_update",
+           "symmetric_difference_update", "difference", "intersection", "symmetric_difference", "issubset", "issuperset"]
 OS_OPSAB = ["ordered_union", "ordered_intersect", "ordered_diff"]
 
 
@@ -584,6 +615,18 @@ def ec_pool():
         7: {"d": pandas.DataFrame({"x": [1, 2, 3], "g": ["a", "b", "a"]})},
         8: {"d": base.copy(), "e": base.copy()},
     }
+    A = pandas.DataFrame({"x": [1.0, 2.0], "g": ["a", "b"]})
+    B = pandas.DataFrame({"x": [5.0, 6.0], "g": ["c", "d"]})
+    m9 = {}
+    m9["e"] = A.copy()
+    m9["d"] = B.copy()
+    m10 = {}
+    m10["d"] = B.copy()
+    m10["e"] = A.copy()
+    m11 = {}
+    m11["d"] = A.copy()
+    m11["e"] = B.copy()
+    pool.update({9: m9, 10: m10, 11: m11})
     return pool
 
 
@@ -633,7 +676,7 @@ def ec_key_injectivity():
     for i in pool:
         for j in pool:
             same = keys[i] == keys[j]
-            want = (i == j) or ({i, j} == {0, 1})
+            want = (i == j) or ({i, j} == {0, 1}) or ({i, j} == {9, 10})
             if same != want:
                 bad.append((i, j, same))
     return bad
@@ -659,7 +702,12 @@ def check_C25(tier, replay=None):
     r = run_sm("MC_EvalCache", dict(consts, Pool="<- MC_Pool", MaxOps="= 6"), emit="Emit", tr=tr,
                simulate={"num": 1500 if quick else 20000, "seed": common.seed()}, depth=7,
                what="simulated histories of 6 calls over the near-duplicate pool")
-    cases = parse_hist_cases(r.lines, limit=(3000 if quick else 40000))
+    lines = list(r.lines)
+    for pool_name, what in (("MC_Pool3", "base / equal copy / one value changed"), ("MC_PoolT", "two-table maps: insertion order vs exchanged contents")):
+        r = run_sm("MC_EvalCache", dict(consts, Dialects="<- MC_D1", Sqls="<- MC_S1", Pool="<- " + pool_name, MaxOps="= 4"), emit="Emit", tr=tr,
+                   what="every store/get/mutate history of 4 calls on one dialect and one SQL text over the pool {%s}" % what)
+        lines += r.lines
+    cases = parse_hist_cases(lines, limit=(30000 if quick else 80000))
     ctx = multiprocessing.get_context("fork")
     with ctx.Pool(16) as pool:
         for case, v in zip(cases, pool.imap(ec_replay_case, cases, chunksize=32)):
@@ -667,13 +715,13 @@ def check_C25(tier, replay=None):
             if v[0] != "ok":
                 vd.violation({"kind": "history", "case": case, "verdict": v})
     bad = ec_key_injectivity()
-    stats["key_pairs_checked"] = 81
+    stats["key_pairs_checked"] = len(ec_pool()) ** 2
     for b in bad:
         vd.violation({"kind": "key-injectivity", "pair": b})
     nontriv = sum(1 for c in cases if any(e["op"] == "get" and e["hit"] for e in c["hist"]))
     cov = {"states": tr.states, "transitions": tr.transitions, "traces_validated_against_impl": len(cases),
            "samples": [[[e["op"], e["d"], e["q"], e["m"], e["r"], e["hit"]] for e in c["hist"]] for c in cases[:2]],
-           "evaluations": len(cases) + 81, "distinct_nontrivial": nontriv,
+           "evaluations": len(cases) + stats["key_pairs_checked"], "distinct_nontrivial": nontriv,
            "rule": "histories of EvalCache.tla replayed on ResultCache with concrete frames; non-trivial = contains a lookup that hits; "
                    "plus all 81 ordered pairs of the near-duplicate pool for key injectivity",
            "tlc_runs": tr.runs, "outcomes": dict(stats)}
